@@ -78,9 +78,10 @@ BehaviourExport == (Len(hist) = MaxSteps) => PrintT(<<"BEH", ToJson(hist)>>)
 (* -simulate evaluates invariants on every successor of the states of a trace: export only behaviours that end in a completed pull *)
 SimExport == (Len(hist) = MaxSteps /\ out.on /\ out.done) => PrintT(<<"BEH", ToJson(hist)>>)
 (* behaviours (one per distinct state, the model checker's VIEW) whose last step is a page that completed a pull and delivered a
-   revoked / removed / deleted row or a grant back-fill row *)
+   revoked / removed / deleted row or a grant back-fill row to a client that had pulled before *)
 Interesting(r) == r.id # UserRow /\ (Drop(r) \/ r.tok.t > 0)
-NontrivExport == (out.on /\ out.done /\ \E i \in 1..Len(out.rows) : Interesting(out.rows[i])) => PrintT(<<"BEH", ToJson(hist)>>)
+Resumed == \E i \in 1..(Len(hist) - 1) : hist[i].a = "Page"          \* not the client's first request
+NontrivExport == (out.on /\ out.done /\ Resumed /\ \E i \in 1..Len(out.rows) : Interesting(out.rows[i])) => PrintT(<<"BEH", ToJson(hist)>>)
 (* candidates: behaviours of the model (= transcription of the implemented algorithm) that break the property *)
 CandExport == (out.on /\ ~PropertyHolds) => PrintT(<<"CAND", ToJson(hist)>>)
 =============================================================================
